@@ -7,6 +7,13 @@ use std::cell::Cell;
 verus! {
 
 //@include vx_prelude.rs
+//@include std_more.rs
+// an Option filtered by a closure is either dropped or unchanged
+pub assume_specification<T, P: FnOnce(&T) -> bool>[ Option::<T>::filter ](o: Option<T>, predicate: P) -> (r: Option<T>)
+    requires o is Some ==> predicate.requires((&o.unwrap(),)),
+    ensures
+        o is None ==> r is None,
+        o is Some ==> (exists|b: bool| predicate.ensures((&o.unwrap(),), b) && (b ==> r == o) && (!b ==> r is None));
 
 //@extract struct StabilisationNum
 //@ file: src/stabilisation_num.rs
@@ -80,6 +87,19 @@ pub struct State {
     pub num_var_sets: usize,
     pub set_during_stabilisation: Vec<WeakVar>,
     pub recompute_heap: RecomputeHeap,
+}
+
+impl State {
+//@extract fn State::is_stabilising
+//@ file: src/state.rs
+//@ impl: impl State
+//@ name: is_stabilising
+//@ as: pub fn is_stabilising(&self) -> (r: bool)
+//@ cells: status
+//@ props: C07 C08 C13
+//@ contract:
+//@|     ensures r == !(self.status is NotStabilising), // [true-while-stabilising-and-while-handlers-run]
+//@end
 }
 
 //@extract struct Var
